@@ -54,4 +54,5 @@ VARIANTS += [
     M('C15', 'post-processed-files-take-their-final-newline-from-different-guides', E(CF, "            self.write_file(\n                diffActual,\n                (differ or '') + reconstruction.actual_lines(),\n                guide=guide,\n            )", "            self.write_file(\n                diffActual,\n                (differ or '') + reconstruction.actual_lines(),\n                guide=actual_path or expected_path,\n            )"),
       rule='C15-SAMEGUIDE', key='add_failures'),
     M('C15', 'refactor-guide-renamed', E(CF, "guide = expected_path or actual_path", "guide = expected_path or actual_path  # same for both files"), kind='refactor'),
+    M('C15', 'binary-offset-off-by-one', E('tdda/referencetest/checkfiles.py', "'First difference at byte offset %d, %s.'\n                % (binaryinfo.byteoffset, lengthinfo),", "'First difference at byte offset %d, %s.'\n                % (binaryinfo.byteoffset + 1, lengthinfo),"), rule='C15-ARTEFACTS', key='check_binary_file'),
 ]
